@@ -663,7 +663,6 @@ func (c *checker) encoders(bs []string) {
 		{"enc.MetadataName", "mdname", "mdname", verifshim.MetadataName},
 		{"enc.Quote", "string", "section", func(s string) string { return verifshim.Quote([]byte(s)) }},
 		{"enc.Quote", "string", "section", func(s string) string { return `"` + verifshim.EscapeString([]byte(s)) + `"` }},
-		{"enc.ComdatName", "comdat", "comdat", func(s string) string { return "$" + verifshim.EscapeIdent(s) }},
 	}
 	var rows []row
 	type meta struct {
@@ -1073,6 +1072,10 @@ func runReplay(c *checker, path string) {
 	for _, p := range positions() {
 		byPos[p.name] = p
 	}
+	want := map[*position][]string{}
+	var ps []*position
+	var encs []string
+	ids := false
 	for _, f := range one.Failures {
 		hx, _ := f.Case["bytes"].(string)
 		raw, _ := hex.DecodeString(hx)
@@ -1084,43 +1087,41 @@ func runReplay(c *checker, path string) {
 			if p == nil {
 				continue
 			}
-			c.codeToSpec([]*position{p}, func(*position) []string { return []string{b} })
-			// the reference spelling: ask the spec
-			c.replayG(p, b)
+			if _, ok := want[p]; !ok {
+				ps = append(ps, p)
+			}
+			want[p] = append(want[p], b)
 		case "enc":
-			c.encoders([]string{b})
+			encs = append(encs, b)
 		case "ids":
-			c.idsStayIDs()
+			ids = true
 		}
 	}
-}
-
-// replayG obtains the reference token of one byte string from TLC and runs the spec -> code step.
-func (c *checker) replayG(p *position, b string) {
-	if !permitted(p, b) {
-		return
-	}
-	// the reference encoder is evaluated by TLC on exactly this string: alphabet = its bytes is too
-	// large in general, so the string is handed over as a one-element domain through the constants
-	set := map[int]bool{}
-	for i := 0; i < len(b); i++ {
-		set[int(b[i])] = true
-	}
-	if len(b) > 3 || len(set) > 3 {
-		c.rep.Note("replay: the reference spelling of %q is not re-derived (string longer than the enumeration bound); only the code -> spec direction was replayed", b)
-		return
-	}
-	var al []string
-	for v := range set {
-		al = append(al, strconv.Itoa(v))
-	}
-	sort.Strings(al)
-	t := mbt.MustTLC(mbt.TLCOpts{Spec: "LiteralsName", Cfg: "LiteralsName.cfg", Workers: 2,
-		Consts: map[string]string{"Alphabet": "{" + strings.Join(al, ", ") + "}", "MaxLen": strconv.Itoa(len(b)), "PairLen": "0", "Kinds": `{"` + p.kind + `"}`}})
-	defer t.Cleanup()
-	for _, v := range readVectors(t.Output) {
-		if str(v.Bytes) == b {
-			c.specToCode(p, []gcase{{b: b, tok: str(v.Tok), ref: str(v.Ref), tag: v.Tag}})
+	if len(ps) > 0 {
+		// code -> spec
+		c.codeToSpec(ps, func(p *position) []string { return want[p] })
+		// spec -> code: the spellings of the replayed strings come from the generator cfg of the quick tier
+		t := mbt.MustTLC(mbt.TLCOpts{Spec: "LiteralsName", Cfg: "LiteralsName.cfg", Workers: 4, Consts: map[string]string{"PairLen": "0"}})
+		vs := readVectors(t.Output)
+		t.Cleanup()
+		for _, p := range ps {
+			in := map[string]bool{}
+			for _, b := range want[p] {
+				in[b] = true
+			}
+			var cases []gcase
+			for _, v := range vs {
+				if v.Kind == p.kind && in[str(v.Bytes)] {
+					cases = append(cases, gcase{b: str(v.Bytes), tok: str(v.Tok), ref: str(v.Ref), tag: v.Tag})
+				}
+			}
+			c.specToCode(p, cases)
 		}
+	}
+	if len(encs) > 0 {
+		c.encoders(encs)
+	}
+	if ids {
+		c.idsStayIDs()
 	}
 }
